@@ -1,33 +1,35 @@
 (* C11 — concurrent starts never double-apply.
    Pinned statements only.  Model: Model/Locking.v (any number of instances, arbitrary schedule at
    connection-call granularity) over the SQLite file-lock rules of Model/Sqlite.v with busy_timeout = 0.
-   All theorems below carry [versions_i32 ms] (every compiled version < 2^31): for versions in
-   [2^31, 2^32) even the sequential re-run misbehaves (C09_run_idempotent_full_refuted), and the invariant
-   proof uses the sequential theory for an instance that starts after another one has committed. *)
+   The theorems carry [versions_u32 ms] (the Rust type of the version field; the former restriction to
+   versions < 2^31 is gone with fix 3924c60) and [id_conflict ms d = false]: they are named _partial because
+   the case of a database whose recorded ids conflict with the compiled ones — where every instance returns
+   IdMismatch without executing anything (C09_id_mismatch_reported) — is not carried through the
+   interleaving invariant. *)
 From VV.MIG Require Import Spec SeqP ConcP TermP.
 
 Definition C11_at_most_once_full_statement : Prop := forall o ms k d n sched,
-  ascending ms = true -> at_version k d = true ->
+  ascending ms = true -> versions_u32 ms = true -> at_version k d = true ->
   let c := s_db (steps o ms sched (init_sys n d)) in
   c = d \/ c = sql_create_vt d \/ c = bootstrap d \/ c = fst (run [] o ms d).
 
 (* for any number n of instances and any schedule: the committed database is the original one (up to the
    bookkeeping table) or exactly the result of ONE sequential run *)
 Theorem C11_at_most_once_partial : forall o ms k d n sched,
-  ascending ms = true -> versions_i32 ms = true -> at_version k d = true ->
+  ascending ms = true -> versions_u32 ms = true -> at_version k d = true -> id_conflict ms d = false ->
   let c := s_db (steps o ms sched (init_sys n d)) in
   c = d \/ c = sql_create_vt d \/ c = bootstrap d \/ c = fst (run [] o ms d).
 Proof. exact at_most_once. Qed.
 Print Assumptions C11_at_most_once_partial.
 Check C11_at_most_once_partial : forall o ms k d n sched,
-  ascending ms = true -> versions_i32 ms = true -> at_version k d = true ->
+  ascending ms = true -> versions_u32 ms = true -> at_version k d = true -> id_conflict ms d = false ->
   let c := s_db (steps o ms sched (init_sys n d)) in
   c = d \/ c = sql_create_vt d \/ c = bootstrap d \/ c = fst (run [] o ms d).
 
 (* spelled out: each pending migration's statements and its version row are committed zero times or
    exactly once, all together and in order *)
 Theorem C11_committed_once_partial : forall o ms k d n sched,
-  ascending ms = true -> versions_i32 ms = true -> at_version k d = true ->
+  ascending ms = true -> versions_u32 ms = true -> at_version k d = true -> id_conflict ms d = false ->
   let c := s_db (steps o ms sched (init_sys n d)) in
   exists l, (l = [] \/ l = pending k ms) /\
     d_applied c = d_applied d ++ stmts_all o l /\
@@ -35,7 +37,7 @@ Theorem C11_committed_once_partial : forall o ms k d n sched,
 Proof. exact committed_once. Qed.
 Print Assumptions C11_committed_once_partial.
 Check C11_committed_once_partial : forall o ms k d n sched,
-  ascending ms = true -> versions_i32 ms = true -> at_version k d = true ->
+  ascending ms = true -> versions_u32 ms = true -> at_version k d = true -> id_conflict ms d = false ->
   let c := s_db (steps o ms sched (init_sys n d)) in
   exists l, (l = [] \/ l = pending k ms) /\
     d_applied c = d_applied d ++ stmts_all o l /\
@@ -44,7 +46,7 @@ Check C11_committed_once_partial : forall o ms k d n sched,
 (* every instance, at any moment: finished with Ok or Err, holding no lock and no open transaction view;
    or still running and able to take its next step (never stuck) *)
 Theorem C11_each_instance_ok_or_err_partial : forall o ms k d n sched p,
-  ascending ms = true -> versions_i32 ms = true -> at_version k d = true ->
+  ascending ms = true -> versions_u32 ms = true -> at_version k d = true -> id_conflict ms d = false ->
   In p (s_insts (steps o ms sched (init_sys n d))) ->
   match i_res (p_inst p) with
   | Some r => (r = ROk \/ exists e, r = RErr e) /\ i_lock (p_inst p) = Unlocked /\ i_buf (p_inst p) = None
@@ -53,7 +55,7 @@ Theorem C11_each_instance_ok_or_err_partial : forall o ms k d n sched p,
 Proof. exact each_instance_ok_or_err. Qed.
 Print Assumptions C11_each_instance_ok_or_err_partial.
 Check C11_each_instance_ok_or_err_partial : forall o ms k d n sched p,
-  ascending ms = true -> versions_i32 ms = true -> at_version k d = true ->
+  ascending ms = true -> versions_u32 ms = true -> at_version k d = true -> id_conflict ms d = false ->
   In p (s_insts (steps o ms sched (init_sys n d))) ->
   match i_res (p_inst p) with
   | Some r => (r = ROk \/ exists e, r = RErr e) /\ i_lock (p_inst p) = Unlocked /\ i_buf (p_inst p) = None
@@ -64,26 +66,26 @@ Check C11_each_instance_ok_or_err_partial : forall o ms k d n sched p,
    scheduler steps an instance has finished, whatever the other instances do in between (no hang, no
    unbounded retry inside the generated code) *)
 Theorem C11_instance_terminates_partial : forall o ms k d n sched pid,
-  ascending ms = true -> versions_i32 ms = true -> at_version k d = true ->
+  ascending ms = true -> versions_u32 ms = true -> at_version k d = true -> id_conflict ms d = false ->
   pid < n -> steps_bound o ms <= count_occ Nat.eq_dec sched pid ->
   exists p, nth_error (s_insts (steps o ms sched (init_sys n d))) pid = Some p /\ finished p = true.
 Proof. exact instance_terminates. Qed.
 Print Assumptions C11_instance_terminates_partial.
 Check C11_instance_terminates_partial : forall o ms k d n sched pid,
-  ascending ms = true -> versions_i32 ms = true -> at_version k d = true ->
+  ascending ms = true -> versions_u32 ms = true -> at_version k d = true -> id_conflict ms d = false ->
   pid < n -> steps_bound o ms <= count_occ Nat.eq_dec sched pid ->
   exists p, nth_error (s_insts (steps o ms sched (init_sys n d))) pid = Some p /\ finished p = true.
 
 (* once all have finished, re-running (any loser, any number >= 1 of times, one after the other) ends in
    the database of one sequential run *)
 Theorem C11_retry_converges_partial : forall o ms k d n sched retries,
-  ascending ms = true -> versions_i32 ms = true -> at_version k d = true ->
+  ascending ms = true -> versions_u32 ms = true -> at_version k d = true -> id_conflict ms d = false ->
   all_finished (steps o ms sched (init_sys n d)) = true ->
   Nat.iter (S retries) (fun c => fst (run [] o ms c)) (s_db (steps o ms sched (init_sys n d))) = fst (run [] o ms d).
 Proof. exact retry_converges. Qed.
 Print Assumptions C11_retry_converges_partial.
 Check C11_retry_converges_partial : forall o ms k d n sched retries,
-  ascending ms = true -> versions_i32 ms = true -> at_version k d = true ->
+  ascending ms = true -> versions_u32 ms = true -> at_version k d = true -> id_conflict ms d = false ->
   all_finished (steps o ms sched (init_sys n d)) = true ->
   Nat.iter (S retries) (fun c => fst (run [] o ms c)) (s_db (steps o ms sched (init_sys n d))) = fst (run [] o ms d).
 
@@ -95,7 +97,7 @@ Definition ex_ms : list mig :=
 Definition ex_o : opts := mkOpts Sqlite "" None false.
 Definition alt3 : list nat := List.concat (repeat [0; 1; 2] 12).
 Example C11_nonvacuous :
-  ascending ex_ms = true /\ versions_i32 ex_ms = true /\ at_version 0 (mkDb None []) = true /\
+  ascending ex_ms = true /\ versions_u32 ex_ms = true /\ at_version 0 (mkDb None []) = true /\ id_conflict ex_ms (mkDb None []) = false /\
   (let s := steps ex_o ex_ms alt3 (init_sys 3 (mkDb None [])) in
    all_finished s = true /\ s_db s = fst (run [] ex_o ex_ms (mkDb None [])) /\
    map (fun p => i_res (p_inst p)) (s_insts s) = [Some ROk; Some (RErr DatabaseError); Some (RErr DatabaseError)]) /\
